@@ -18,7 +18,9 @@ THEOREMS = ['C01_sht_gram', 'C01_sht_roundtrip', 'C01_sht_roundtrip_bandlimited'
             'C01_hyps_satisfiable',
             'C01_legendre_accepts', 'C01_legendre_support', 'C01_legendre_H_p_support', 'C01_rhombus_triangle_zero',
             'C01_legendre_p00', 'C01_legendre_parity', 'C01_legendre_three_term_ab', 'C01_legendre_three_term_eps',
-            'C01_legendre_eps_sq', 'C01_legendre_radicands', 'C01_legendre_nonvacuous']
+            'C01_legendre_eps_sq', 'C01_legendre_radicands', 'C01_legendre_nonvacuous',
+            'C01_legendre_poly_factor', 'C01_legendre_gram_integrand', 'C01_legendre_gram_is_moment_functional',
+            'C01_legendre_orth_deg_from_functional', 'C01_legendre_orth_resolves', 'C01_legendre_poly_nonvacuous']
 LEVEL = 'proof'
 LEVEL_TEXT = ('machine-checked theorems (Coq) for every field, all sizes M,L,I,J (and paddings), all tables and ALL '
               'spectral inputs: analysis(synth x) is exactly the Gram operator of the tables applied to x; under the '
@@ -270,6 +272,8 @@ def _generate_all(ctx):
     yield 'rejects', {}
     for lc in legendre_cases(rng, ctx.tier):
         yield 'legendre', lc
+    for (n_m, n_l) in ([(3, 5), (1, 4), (4, 4)] if ctx.tier == 'quick' else [(3, 5), (1, 4), (4, 4), (6, 8), (2, 9)]):
+        yield 'legendre_poly', {'n_m': n_m, 'n_l': n_l, 'seed': int(rng.integers(0, 2 ** 31))}
     # a mesh grid with non-default latitude spacing and longitude offset
     yield 'mesh', {'mesh': [2, 2, 1], 'L': 7, 'K': 2, 'base': 1, 'seed': int(rng.integers(0, 2 ** 31)),
                    'spacing': 'equiangular', 'lon_offset': 0.1}
@@ -1114,4 +1118,53 @@ def r_legendre(ctx, a):
         ctx.count('legendre:weights')
 
 
-RUNNERS = {'legendre': r_legendre, 'big_numpy': r_big_numpy, 'contexts': r_contexts, 'cache_integrity': r_cache_integrity, 'rejects': r_rejects, 'forms': r_forms, 'mesh': r_mesh, 'fourier_closed_form': r_fourier_closed_form, 'factory': r_factory, 'layout': r_layout, 'tables': r_tables, 'transforms': r_transforms}
+def r_legendre_poly(ctx, a):
+    """Coefficient-list model (leg_q, leg_gram_poly of Model/Legendre.v) against the implementation's table at generic
+    nodes: p[m,:,l] = y^m * q_{m,l}(x) with q evaluated by numpy.polynomial, q recovered from the table by
+    interpolation, closed forms for m = 0, l <= 3, and the node-free functional statement Int(gram poly) = delta."""
+    jax, jnp, sh, fourier, al = J_()
+    from numpy.polynomial import polynomial as P
+    n_m, n_l = a['n_m'], a['n_l']
+    rng = np.random.Generator(np.random.PCG64(a['seed']))
+    nx = n_l + 2
+    x = np.sort(np.cos(np.pi * (np.arange(nx) + 0.5) / nx) * 0.95 + rng.uniform(-0.01, 0.01, nx))      # generic, no pole
+    y = np.sqrt(1 - x * x)
+    p = al.evaluate(n_m, n_l, x)
+    r = ctx.model.call(30, [n_m, n_l], [])
+    keys = r[2:]; vals = [float(np.sqrt(np.float64(float(k)))) for k in keys]
+    sqrts = [keys, vals]
+    cf = {}
+    for m in range(n_m):
+        for l in range(m, n_l):
+            q = ctx.model.call(35, [m, l], sqrts); cf[(m, l)] = q
+            ctx.exact(f'degree of q[{m},{l}] <= l - m', bool(len(q) <= l - m + 1), True)
+            qf = np.array([float(c) for c in q])
+            # the implementation's table = y^m * numpy.polynomial evaluation of the model's coefficient list
+            ctx.corr(f'evaluate()[{m}, :, {l}] = y^m * polyval(x, q_model)', p[m, :, l], list(y ** m * P.polyval(x, qf)),
+                     scale=float(np.abs(y ** m * P.polyval(x, np.abs(qf))).max()) + 1e-300)
+            # ... and the coefficients recovered from the table by interpolation on the first l-m+1 nodes
+            k = l - m + 1
+            idx = np.linspace(0, nx - 1, k).round().astype(int)
+            fit = P.polyfit(x[idx], p[m, idx, l] / y[idx] ** m, k - 1)
+            ctx.corr(f'coefficients of evaluate()[{m}, :, {l}] / y^m (interpolated) = q_model', fit, q + [0] * (k - len(q)),
+                     scale=float(np.abs(qf).max()) * 2.0 ** (2 * k), tol_rel=2.0 ** -30)
+    closed = {0: [math.sqrt(0.5)], 1: [0.0, math.sqrt(1.5)], 2: [-math.sqrt(0.625), 0.0, 3 * math.sqrt(0.625)],
+              3: [0.0, -3 * math.sqrt(0.875), 0.0, 5 * math.sqrt(0.875)]}
+    for l in range(min(4, n_l)):
+        ctx.corr(f'q_model[0,{l}] = closed form of the normalised Legendre polynomial', np.array(closed[l]), cf[(0, l)], scale=8.0)
+    # node-free statement: Int over [-1,1] (moments 2/(n+1), 0) of the Gram polynomial = delta
+    worst = 0.0; ok = True
+    for m in range(n_m):
+        for l in range(m, n_l):
+            for l2 in range(l, n_l):
+                g = ctx.model.call(36, [m, l, l2], sqrts)
+                ctx.exact('degree of the Gram polynomial <= l + l\'', bool(len(g) <= l + l2 + 1), True)
+                val = sum(float(c) * (2.0 / (n + 1)) for n, c in enumerate(g) if n % 2 == 0)
+                sc = sum(abs(float(c)) * (2.0 / (n + 1)) for n, c in enumerate(g) if n % 2 == 0) + 1.0
+                e = abs(val - (1.0 if l == l2 else 0.0)); worst = max(worst, e / sc); ok = ok and e <= 2.0 ** -36 * sc
+    ctx.table_obligation('H_functional: integral over [-1,1] of leg_gram_poly(m,l,l\') = delta(l,l\') (coefficient lists only, no nodes)',
+                         ok, {'worst_rel': worst})
+    ctx.count('legendre_poly')
+
+
+RUNNERS = {'legendre_poly': r_legendre_poly, 'legendre': r_legendre, 'big_numpy': r_big_numpy, 'contexts': r_contexts, 'cache_integrity': r_cache_integrity, 'rejects': r_rejects, 'forms': r_forms, 'mesh': r_mesh, 'fourier_closed_form': r_fourier_closed_form, 'factory': r_factory, 'layout': r_layout, 'tables': r_tables, 'transforms': r_transforms}
